@@ -50,7 +50,8 @@ type c08case struct {
 	TamperKind string   `json:"tamper_kind"` // root|droptx|flags|time
 	List       string   `json:"list"`        // ok|shuffled|gap|dup|dropfirst|height0|height0tip|far|known|peer|none
 	ListArg    int      `json:"list_arg"`
-	Share      bool     `json:"share"` // offer the same signed transactions to both branches
+	Share      bool     `json:"share"`             // offer the same signed transactions to both branches
+	Advance    []string `json:"advance,omitempty"` // own blocks the node adds between fork validation and ApplyFork
 }
 
 // block kinds: e = empty block, q = proposed without new transactions, p = proposed with ordinary transactions,
@@ -876,6 +877,22 @@ func c08run(c *hx.Ctx, cs c08case, emit bool) (*c08result, error) {
 	// ---- adoption
 	if loaded && fail == nil {
 		hit("adoption-attempted")
+		// the node's own chain moves on between loadAndVerifyFork and the engine's ApplyFork
+		if len(cs.Advance) > 0 {
+			brAdv := &c08branch{props: []*chainfx.Node{s.a, s.a1}, snd: chainfx.NewSender(s.w)}
+			for _, k := range cs.Advance {
+				rec, err := s.produce(brAdv, k, nil)
+				if err != nil {
+					return nil, nil
+				}
+				b := rec.b
+				line(fmt.Sprintf("adv %d %d %d %d %d %s", ids.b(b.Hash()), b.Height(), ids.b(b.Header.ParentHash()), c08b(b.IsEmpty()), 0, ids.txs(b.Body.Transactions)), "ok")
+			}
+			oldHead = A.Chain.Head.Height()
+			hit(fmt.Sprintf("advance-before-apply:%d", len(cs.Advance)))
+		}
+		preApply := snapshot(A, oldHead+2)
+		preHead := A.Chain.Head
 		var abandoned []*types.Transaction
 		var abandonedBlocks []common.Hash
 		for h := commonH + 1; h <= oldHead; h++ {
@@ -905,7 +922,55 @@ func c08run(c *hx.Ctx, cs c08case, emit bool) (*c08result, error) {
 			}
 			bad(sig, fmt.Sprintf("ApplyFork panicked after the fork had been found applicable (%s); node left at height %d of the fork (tip %d)", first, A.Chain.Head.Height(), applicable[len(applicable)-1].Block.Height()))
 		case "err":
-			bad("C08:adoption-failed-after-validation", "ApplyFork returned an error for a fork that ValidateSubChain accepted: "+d)
+			// the state of the common height left the window of 100 saved versions while the own chain moved on: the
+			// rollback must fail, and a failed adoption must leave the node exactly as it was
+			if oldHead-commonH < uint64(state.MaxSavedStatesCount) {
+				bad("C08:adoption-failed-after-validation", "ApplyFork returned an error for a fork that ValidateSubChain accepted: "+d)
+				break
+			}
+			hit("ApplyFork:err:common-state-out-of-window")
+			line("head", fmt.Sprint(ids.b(A.Chain.Head.Hash())))
+			for _, h := range []uint64{commonH, commonH + 1, oldHead, oldHead + 1} {
+				ans := "-"
+				if b := A.Chain.GetBlockByHeight(h); b != nil {
+					ans = fmt.Sprint(ids.b(b.Hash()))
+				}
+				line(fmt.Sprintf("canon %d", h), ans)
+			}
+			changed := func(what string) {
+				bad("C08:failed-adoption-changed-node", fmt.Sprintf("ApplyFork failed (%s) but did not leave the node as it was: %s (own head %d, common %d)", strings.SplitN(d, "\n", 2)[0], what, preHead.Height(), commonH))
+			}
+			if A.Chain.Head.Hash() != preHead.Hash() {
+				changed(fmt.Sprintf("head is now block %d", A.Chain.Head.Height()))
+			}
+			if st := A.Chain.GetHead(); st == nil || st.Hash() != preHead.Hash() {
+				changed("the stored head pointer moved")
+			}
+			if A.Chain.Head.Root() != A.App.State.Root() || A.Chain.Head.IdentityRoot() != A.App.IdentityState.Root() {
+				changed(fmt.Sprintf("head (height %d) and loaded state (version %d) disagree", A.Chain.Head.Height(), A.App.State.Version()))
+			}
+			if fmt.Sprint(snapshot(A, oldHead+2)) != fmt.Sprint(preApply) {
+				changed("head / roots / canonical hashes changed")
+			}
+			if va, v1 := A.App.ValidatorsCache, s.a1.App.ValidatorsCache; va.NetworkSize() != v1.NetworkSize() || va.OnlineSize() != v1.OnlineSize() || fmt.Sprint(c08online(A)) != fmt.Sprint(c08online(s.a1)) {
+				changed("validator view differs from the replica of the own branch")
+			}
+			if r, d2 := c08guard(func() error { _, e := A.App.ForCheck(preHead.Height()); return e }); r != "ok" {
+				changed("the state of the own head cannot be loaded: " + strings.SplitN(d2, "\n", 2)[0])
+			}
+			if r, d2 := c08guard(func() error { return A.Chain.EnsureIntegrity() }); r != "ok" {
+				changed("EnsureIntegrity: " + strings.SplitN(d2, "\n", 2)[0])
+			}
+			if A.Chain.Head.Hash() != preHead.Hash() {
+				changed("EnsureIntegrity moved the head")
+			}
+			if fail == nil { // the node goes on with its own chain
+				if _, err := s.produce(&c08branch{props: []*chainfx.Node{s.a, s.a1}, snd: chainfx.NewSender(s.w)}, "p", nil); err != nil {
+					changed("the node cannot add the next own block: " + strings.SplitN(err.Error(), "\n", 2)[0])
+				} else if A.Chain.Head.ParentHash() != preHead.Hash() {
+					changed("the next own block is not on top of the own head")
+				}
+			}
 		case "ok":
 			// C followed the fork from the start; bring it to the adopted tip if the peer answer was shorter than the fork
 			tip := applicable[len(applicable)-1].Block
@@ -1157,19 +1222,22 @@ func c08gen(r *rand.Rand, i int) c08case {
 	}
 	cs.Certs[nFork-1] = []string{"valid", "min"}[r.Intn(2)]
 	switch i % 11 {
-	case 10: // common ancestor at the edge of the retained window (100 saved versions): 98..101 empty own blocks
-		nOwn := 98 + r.Intn(4)
-		cs.Own = nil
-		for j := 0; j < nOwn; j++ {
+	case 10: // common ancestor at the edge of the window of 100 saved versions (head-98 / head-99 / head-100), the node
+		// adds 0/1/2 own blocks between fork validation and ApplyFork: the rollback fails once the version is pruned
+		combo := [][2]int{{99, 1}, {98, 2}, {99, 0}, {98, 1}, {99, 2}, {100, 0}, {98, 0}, {101, 1}}[(i/11)%8]
+		cs.Online, cs.Share, cs.Own, cs.Fork, cs.Certs, cs.Advance = 1+r.Intn(2), false, nil, nil, nil, nil
+		cs.Prefix = 4 + r.Intn(2)
+		for j := 0; j < combo[0]; j++ {
 			cs.Own = append(cs.Own, "e")
 		}
-		if len(cs.Fork) > 3 {
-			cs.Fork, cs.Certs = cs.Fork[:3], cs.Certs[:3]
+		for j := 0; j < combo[1]; j++ {
+			cs.Advance = append(cs.Advance, []string{"e", "q"}[r.Intn(2)])
 		}
-		for j := range cs.Certs {
-			cs.Certs[j] = "valid"
+		for j := 0; j <= combo[0]; j++ { // one block longer than the own branch: the weight rule lets it through
+			cs.Fork = append(cs.Fork, "q")
+			cs.Certs = append(cs.Certs, "nil")
 		}
-		cs.Share = false
+		cs.Certs[len(cs.Certs)-1] = "valid"
 	case 8, 9: // the validator set changes inside the fork (all four validator users switch), blocks follow the switch
 		cs.Online = []int{1, 5}[r.Intn(2)]
 		if cs.Prefix < 4 {
@@ -1284,13 +1352,26 @@ func c08gen(r *rand.Rand, i int) c08case {
 
 // c08shrink tries smaller variants of a failing case that keep the failure signature.
 func c08shrink(c *hx.Ctx, cs c08case, sig string) c08case {
+	tries := 0
 	try := func(cand c08case) bool {
+		tries++
+		if tries > 60 { // long own branches (window-edge family) make every attempt cost about a second
+			return false
+		}
 		f, err := c08run(c, cand, false)
 		return err == nil && f != nil && f.signature == sig
 	}
 	for changed := true; changed; {
 		changed = false
-		if len(cs.Own) > 0 {
+		if len(cs.Advance) > 0 {
+			cand := cs
+			cand.Advance = cs.Advance[:len(cs.Advance)-1]
+			if try(cand) {
+				cs, changed = cand, true
+				continue
+			}
+		}
+		if len(cs.Own) > 0 && len(cs.Own) < 90 {
 			cand := cs
 			cand.Own = cs.Own[:len(cs.Own)-1]
 			if try(cand) {
@@ -1369,7 +1450,7 @@ func c08shrink(c *hx.Ctx, cs c08case, sig string) c08case {
 }
 
 func c08key(cs c08case) string {
-	return fmt.Sprint(cs.Online, cs.Prefix, cs.Own, cs.Fork, cs.Certs, cs.Tamper, cs.TamperKind, cs.List, cs.Share)
+	return fmt.Sprint(cs.Online, cs.Prefix, cs.Own, cs.Fork, cs.Certs, cs.Tamper, cs.TamperKind, cs.List, cs.Share, cs.Advance)
 }
 
 func init() {
@@ -1405,7 +1486,7 @@ func init() {
 			}
 			return runOne(wrap.Replay)
 		}
-		c.Rep.Rule = "three real replica groups over one genesis (observed node A, fork branch B, clean follower C; 11 identities, 1-5 online validators, two proposer keys); common prefix 1-11, own branch 0-6, fork 1-20 blocks of kinds empty / proposed / with transactions / kill transaction (identity update) / online switch; per fork block one of 16 certificate shapes (incl. a full quorum plus one signature no key can be recovered from: wrong length / recovery id / zero) signed with the real validator keys; 11 case families (i mod 11): fully certified, uncertified middle blocks, defective tip certificate, defective certificate anywhere, tampered block (5 operators), hostile lists (gap, duplicate, first block dropped, height 0, height 0 + tip, far future, none, shuffled), real peer answer (GetTopBlockHashes -> ReadBlockForForkedPeer) / answer starting below the ancestor, all certificates random, validator set switched inside the fork with a tip certificate by the old quorum / by the new one, common ancestor at the edge of the 100-version window; distinct = distinct (shape) cases; non-trivial = the real processBlocks was reached with a non-empty list"
+		c.Rep.Rule = "three real replica groups over one genesis (observed node A, fork branch B, clean follower C; 11 identities, 1-5 online validators, two proposer keys); common prefix 1-11, own branch 0-6, fork 1-20 blocks of kinds empty / proposed / with transactions / kill transaction (identity update) / online switch; per fork block one of 16 certificate shapes (incl. a full quorum plus one signature no key can be recovered from: wrong length / recovery id / zero) signed with the real validator keys; 11 case families (i mod 11): fully certified, uncertified middle blocks, defective tip certificate, defective certificate anywhere, tampered block (5 operators), hostile lists (gap, duplicate, first block dropped, height 0, height 0 + tip, far future, none, shuffled), real peer answer (GetTopBlockHashes -> ReadBlockForForkedPeer) / answer starting below the ancestor, all certificates random, validator set switched inside the fork with a tip certificate by the old quorum / by the new one, common ancestor at head-98/-99/-100 of the 100-version window with 0/1/2 own blocks added between fork validation and ApplyFork (failed rollback must change nothing); distinct = distinct (shape) cases; non-trivial = the real processBlocks was reached with a non-empty list"
 		n := c.Scale(198, 3300)
 		for i := 0; i < n; i++ {
 			cs := c08gen(c.Rng, i)
